@@ -5,6 +5,7 @@ package gorums
 import (
 	"errors"
 
+	spb "google.golang.org/genproto/googleapis/rpc/status"
 	"google.golang.org/protobuf/proto"
 	"google.golang.org/protobuf/reflect/protoreflect"
 	"google.golang.org/protobuf/reflect/protoregistry"
@@ -285,4 +286,113 @@ func VerifC13Native() {
 		p := vExpectPanic(func() { _ = codec.Unmarshal(b, newMessage(requestType)) })
 		vAssert(!p, "C13.native-unmarshal-panics")
 	}
+}
+
+// ---- harness 4: boundary sizes with concrete lengths ----
+
+// c13Sizes: encoded part sizes around the varint length-prefix boundaries (1|2 bytes at
+// 127/128, 2|3 bytes at 16383/16384) plus the smallest ones.
+var c13MDSizes = []int{30, 127, 128, 129, 16383, 16384}
+var c13PayloadSizes = []int{0, 2, 127, 128, 129, 16383, 16384}
+
+// VerifC13Sized: the round trip once more, with the two part lengths *concrete* (every pair of
+// the boundary sizes above) and the contents symbolic. It does not depend on the engine's
+// symbolic-length buffers, so it also decides implementations of the framing that index, patch
+// or move bytes inside the frame (which VerifC13RoundTrip may have to give up on). The same
+// choices drive a native body that builds real ordering.Metadata values with exactly those
+// encoded sizes and sends them through the real protobuf codec - the replay of a counterexample.
+func VerifC13Sized() {
+	dir := vChoice("direction", 2)
+	ms := c13MDSizes[vChoice("mdsize", len(c13MDSizes))]
+	ps := c13PayloadSizes[vChoice("payloadsize", len(c13PayloadSizes))]
+	mt := requestType
+	if dir == 1 {
+		mt = responseType
+	}
+	codec := NewCodec()
+	if !vIsEngine() {
+		c13SizedNative(codec, mt, ms, ps)
+		return
+	}
+	vCodec = &vCodecWorld{enc: map[proto.Message][]byte{}, failAt: -1}
+	md := &ordering.Metadata{MessageID: vUint64("msgid"), Method: "verif.Service.Method"}
+	payload := &vMsg{tok: 1}
+	M := make([]byte, ms)
+	for i := range M {
+		M[i] = vByte("M")
+	}
+	P := make([]byte, ps)
+	for i := range P {
+		P[i] = vByte("P")
+	}
+	vCodec.enc[md] = M
+	vCodec.enc[payload] = P
+	vCodec.mdResult = md
+	b, err := codec.Marshal(&Message{Metadata: md, Message: payload})
+	vAssert(err == nil, "C13.sized-marshal-error")
+	out := newMessage(mt)
+	err = codec.Unmarshal(b, out)
+	vAssert(err == nil, "C13.sized-unmarshal-error-on-own-encoding")
+	vAssert(len(vCodec.decoded) == 2, "C13.sized-decoder-calls")
+	gotM, gotP := vCodec.decoded[0].buf, vCodec.decoded[1].buf
+	vAssert(len(gotM) == ms, "C13.sized-metadata-length")
+	vAssert(len(gotP) == ps, "C13.sized-payload-length")
+	for i := range gotM {
+		vAssert(gotM[i] == M[i], "C13.sized-metadata-bytes")
+	}
+	for i := range gotP {
+		vAssert(gotP[i] == P[i], "C13.sized-payload-bytes")
+	}
+	vAssert(out.Metadata.MessageID == md.MessageID && out.Metadata.Method == md.Method, "C13.sized-metadata-roundtrip")
+	vAssert(len(vCodec.created) == 1 && out.Message == protoreflect.ProtoMessage(vCodec.created[0]), "C13.sized-payload-target")
+	vReach("sized")
+}
+
+func VerifC13SizedTwin() { VerifC13Sized(); vFail("C13.twin") }
+
+// c13Pad returns a string s such that set(s) makes the message's encoded size exactly target.
+func c13Pad(m proto.Message, set func(string), target int) bool {
+	set("")
+	base := proto.Size(m)
+	if base == target {
+		return true
+	}
+	for n := target - base; n >= 0 && n > target-base-12; n-- {
+		b := make([]byte, n)
+		for i := range b {
+			b[i] = 'a' + byte(i%26)
+		}
+		set(string(b))
+		if proto.Size(m) == target {
+			return true
+		}
+	}
+	return false
+}
+
+func c13SizedNative(codec *Codec, mt gorumsMsgType, ms, ps int) {
+	md := &ordering.Metadata{MessageID: 1, Method: "ordering.Gorums.NodeStream"}
+	if !c13Pad(md, func(s string) {
+		md.Status = nil
+		if s != "" {
+			md.Status = &spb.Status{Code: 5, Message: s}
+		}
+	}, ms) {
+		vAssume(false) // no metadata value of that encoded size
+	}
+	payload := &ordering.Metadata{}
+	if ps > 0 {
+		payload.MessageID = 1
+	}
+	if !c13Pad(payload, func(s string) { payload.Method = s }, ps) {
+		vAssume(false)
+	}
+	b, err := codec.Marshal(&Message{Metadata: md, Message: payload})
+	vAssert(err == nil, "C13.sized-marshal-error")
+	out := newMessage(mt)
+	err = codec.Unmarshal(b, out)
+	vAssert(err == nil, "C13.sized-unmarshal-error-on-own-encoding")
+	vAssert(proto.Equal(out.Metadata, md), "C13.sized-metadata-native")
+	vAssert(proto.Equal(out.Message, payload), "C13.sized-payload-native")
+	vReach("sized")
 }
